@@ -68,6 +68,16 @@ Proof.
     match goal with |- context [forallb (v_in_choices ?c) ?m] =>
       rewrite (forallb_ext' _ _ m (v_in_choices_spec c)) end.
     match goal with |- context [if ?c then _ else _] => destruct c end; split; congruence.
+  - unfold validate, json_type_ok.
+    destruct v;
+      try (rewrite v_in_choices_spec;
+           match goal with |- context [if ?c then _ else _] => destruct c end; split; congruence).
+    simpl. split; congruence.
+  - unfold validate, json_type_ok.
+    destruct v; try (split; congruence).
+    match goal with |- context [forallb (v_in_choices ?c) ?m] =>
+      rewrite (forallb_ext' _ _ m (v_in_choices_spec c)) end.
+    match goal with |- context [if ?c then _ else _] => destruct c end; split; congruence.
   - simpl. split; congruence.
 Qed.
 
